@@ -108,7 +108,7 @@ def p2a_args(cr, out_name, extra=()):
     return args + list(extra)
 
 
-def run_pretext_to_asm(cr, out_name="out.fa", extra=(), inproc=True, hashseed="0", cwd=None, env_extra=None):
+def run_pretext_to_asm(cr, out_name="out.fa", extra=(), inproc=True, hashseed="0", cwd=None, env_extra=None, keep_handlers=False):
     args = p2a_args(cr, out_name, extra)
     if inproc:
         import logging
@@ -125,9 +125,10 @@ def run_pretext_to_asm(cr, out_name="out.fa", extra=(), inproc=True, hashseed="0
             res = CliRunner().invoke(cli, args)
         finally:
             os.chdir(old)
-            for h in list(logging.root.handlers):
-                logging.root.removeHandler(h)
-                h.close()
+            if not keep_handlers:
+                for h in list(logging.root.handlers):
+                    logging.root.removeHandler(h)
+                    h.close()
             logging.disable(was)
         return {"exit_code": res.exit_code, "stdout": res.stdout, "stderr": res.stderr, "exception": res.exception, "args": args}
     cp = subprocess.run(
@@ -218,3 +219,40 @@ def add_tag_noise(rng, cr):
                 r[5].append(t)
     (cr["dir"] / "pretext.agp").write_text(gpv.pretext_agp_text(pt, cr["t"]))
     cr["labels"] = sorted(set(cr.get("labels", [])) | {"tag:noise-several-special-tags"})
+
+
+def release_logging():
+    import logging
+
+    for h in list(logging.root.handlers):
+        logging.root.removeHandler(h)
+        h.close()
+
+
+def add_haplotig_slivers(rng, cr):
+    """Hostile extra: Haplotig-tagged Pretext fragments shorter than a texel that only touch the last
+    few bases of a long contig (a sliver left by an imprecise cut).  Remapping drops them."""
+    from vf.core import rows_with_pos
+
+    t = cr["t"]
+    pt = cr["pretext"]
+    added = 0
+    for _ in range(rng.randint(1, 3)):
+        sc = rng.choice(cr["input"])
+        cands = [(x1, x2) for x1, x2, r in rows_with_pos(sc[1]) if r[0] == "F" and (x2 - x1 + 1) > 3 * t + 3]
+        if not cands or t < 3:
+            continue
+        x1, x2 = rng.choice(cands)
+        k = rng.randint(1, max(1, int(t * 0.6)))
+        ln = rng.randint(k, max(k, int(t) - 1))
+        if rng.random() < 0.5:
+            a, b = x2 - k + 1, x2 - k + ln  # tail of the contig, running into what follows
+        else:
+            b = x1 + k - 1
+            a = max(1, b - ln + 1)
+        pt.append([f"Scaffold_{len(pt) + 1}", [["F", sc[0], a, b, rng.choice([1, -1]), ["Haplotig"]]]])
+        added += 1
+    if added:
+        (cr["dir"] / "pretext.agp").write_text(gpv.pretext_agp_text(pt, t))
+        cr["labels"] = sorted(set(cr.get("labels", [])) | {"hostile:haplotig-sliver"})
+    return added
